@@ -226,14 +226,14 @@ Proof.
 Qed.
 
 (* ---------- flush: acknowledgement and sync frames touch neither the frame queue nor the sender ---------- *)
-Definition same_core (h h' : hc) : Prop := h_fq h' = h_fq h /\ h_snd h' = h_snd h.
+Definition same_core (h h' : hc) : Prop := h_fq h' = h_fq h /\ h_snd h' = h_snd h /\ h_src h' = h_src h.
 
-Lemma same_core_refl h : same_core h h. Proof. split; reflexivity. Qed.
+Lemma same_core_refl h : same_core h h. Proof. repeat split. Qed.
 Lemma same_core_trans a b c : same_core a b -> same_core b c -> same_core a c.
-Proof. intros [A1 A2] [B1 B2]. split; congruence. Qed.
+Proof. intros (A1 & A2 & A3) (B1 & B2 & B3). repeat split; congruence. Qed.
 
 Lemma afe_finalize_core a : same_core (as_h a) (as_h (afe_finalize a)).
-Proof. unfold afe_finalize. destruct (as_ip a); [|apply same_core_refl]. cbn [as_h]. split; reflexivity. Qed.
+Proof. unfold afe_finalize. destruct (as_ip a); [|apply same_core_refl]. cbn [as_h]. repeat split. Qed.
 
 Lemma afe_push_new_core a g : same_core (as_h a) (as_h (fst (afe_push_new a g))).
 Proof. unfold afe_push_new. destruct (h_credit (as_h a) <? 0)%Z; cbn [fst as_h]; apply same_core_refl. Qed.
@@ -259,7 +259,7 @@ Proof.
   destruct (faq_peek (h_faq (as_h a))) as [g|]; [|inversion E; subst; apply same_core_refl].
   pose proof (afe_push_core a g) as P. destruct (afe_push a g) as [a1 ok1]. cbn [fst] in P.
   destruct ok1; [|inversion E; subst; exact P].
-  eapply same_core_trans; [exact P|]. eapply same_core_trans; [|eapply IH; exact E]. cbn [as_h]. split; reflexivity.
+  eapply same_core_trans; [exact P|]. eapply same_core_trans; [|eapply IH; exact E]. cbn [as_h]. repeat split.
 Qed.
 
 Lemma emit_ack_frames_core h out h' out' ok : emit_ack_frames h out = Ok (h', out', ok) -> same_core h h'.
@@ -281,11 +281,11 @@ Lemma emit_sync_frame_core h out : same_core h (fst (fst (emit_sync_frame h out)
 Proof.
   unfold emit_sync_frame. destruct (N.max (h_rto h) MIN_SYNC_TIMEOUT_MS <=? h_now h - h_sync_base h); [|apply same_core_refl].
   match goal with |- context [if ?c then (h, out, true) else _] => destruct c end; [apply same_core_refl|].
-  destruct (h_credit h <? 0)%Z; cbn [fst]; [apply same_core_refl|]. split; reflexivity.
+  destruct (h_credit h <? 0)%Z; cbn [fst]; [apply same_core_refl|]. repeat split.
 Qed.
 
 Lemma same_core_inv h h' : same_core h h' -> HcInv h -> HcInv h'.
-Proof. intros [A B]. apply HcInv_ext; assumption. Qed.
+Proof. intros (A & B & _). apply HcInv_ext; assumption. Qed.
 
 Lemma hc_flush_inv h h' out : hc_flush h = Ok (h', out) -> HcInv h -> HcInv h'.
 Proof.
